@@ -140,7 +140,8 @@ def mc_jobs(ctx, d, pool):
         name = wrapper(d, "MC_ChangeStrategy", "MC_ChangeStrategy_s%d" % s)
         cfg = name + ".cfg"
         write_cfg(os.path.join(d, cfg), ["SPECIFICATION Spec", "CONSTANTS MaxIn = 220", "  Slices = %d" % slices,
-                                         "  Slice = %d" % s, "INVARIANTS Satisfiable Sensitive Promises",
+                                         "  Slice = %d" % s,
+                                         "INVARIANTS Satisfiable Sensitive Promises AlgorithmMeetsPostconditions",
                                          "CHECK_DEADLOCK FALSE"])
 
         def job(name=name, cfg=cfg):
@@ -234,7 +235,7 @@ def summarize(rec, why):
     s = ("compute_balance answer not allowed by the postconditions: outcome %s; request: rule %s strat %s target %s "
          "minSplit %s notes %s dust %s/%s memo %s eph %s/%s targetH %s nu63H %s anchor %s/%s ov3 %s sapType %s "
          "tin %s/%s tout %s/%s sin %s sout %s oin %s oout %s iin %s iout %s"
-         % (json.dumps({k: o[k] for k in o if o[k] not in ([], "", False) or k == "k"}), q["rule"], q["strat"], q["target"],
+         % (json.dumps({k: o[k] for k in o if k in ("k", "fee") or (o[k] != [] and o[k] != "" and o[k] is not False)}), q["rule"], q["strat"], q["target"],
             q["minSplit"], q["notes"], q["act"], q["thr"] if q["hasThr"] else "default", q["memo"], q["ephK"], q["ephV"],
             q["targetH"], q["nu63H"], q["anchorH"], q["interval"], q["ov3"], q["sapType"], q["tinV"], q["tinS"],
             q["toutV"], q["toutS"], q["sin"], q["sout"], q["oin"], q["oout"], q["iin"], q["iout"]))
@@ -266,6 +267,12 @@ def trace_stats(recs):
         nu63 = q["nu63H"] >= 0 and q["targetH"] >= q["nu63H"]
         if o["k"] == "balance":
             ch = [c for c in o["change"] if not c["eph"]]
+            # observation only (not judged, see notes/c07-report.md): after NU6.3 the requested Orchard outputs alone
+            # would not grow the Orchard pool, but outputs + Orchard change exceed the Orchard inputs
+            o_in, o_out = sum(val(v) for v in q["oin"]), sum(val(v) for v in q["oout"])
+            o_chg = sum(val(c["v"]) for c in ch if c["pool"] == "orchard")
+            if nu63 and o_chg > 0 and o_out <= o_in < o_out + o_chg:
+                inc("observation:orchard_pool_grows_by_outputs_plus_change_post_nu63")
             pools = sorted(set(c["pool"] for c in ch))
             inc("balance:change_notes=%d" % min(len(ch), 3))
             for p in pools:
